@@ -594,6 +594,26 @@ func evalC11(c string) Result {
 		return evalC11Set(setFamC11{name: "sss", sorted: true}, intCodec, container.NewSortedSliceSet[int], f[1])
 	case "C11.sssf":
 		return evalC11Set(setFamC11{name: "sss", sorted: true, float: true}, floatCodec, container.NewSortedSliceSet[float64], f[1])
+	case "C11.std.sort":
+		// the real slices.Sort against the model of pdqsortOrdered (Go/Sort.lean)
+		var l []int
+		if f[1] != "-" {
+			for _, t := range strings.Split(f[1], ",") {
+				l = append(l, atoi(t))
+			}
+		}
+		slices.Sort(l)
+		return Result{Impl: intListTok(l), Direct: "ok", Class: "trivial-std.sort"}
+	case "C11.std.bsearch":
+		// the real slices.BinarySearch against its model, on sorted and on unsorted slices
+		var l []int
+		if f[2] != "-" {
+			for _, t := range strings.Split(f[2], ",") {
+				l = append(l, atoi(t))
+			}
+		}
+		i, found := slices.BinarySearch(l, atoi(f[1]))
+		return Result{Impl: fmt.Sprintf("%d/%v", i, found), Direct: "ok", Class: "trivial-std.bsearch"}
 	case "C11.ms":
 		// MapSet's "insert in the middle" has no meaning; a duplicate-free map needs
 		// deletes of present values to be interesting.
@@ -797,6 +817,23 @@ func genC11(rng *rand.Rand, tier string) (cases []string) {
 			return pick(rng, "inf", "-inf")
 		}
 		return strconv.Itoa(rng.IntN(8) - 2)
+	}
+	// the stdlib models behind Theorems/C11Sort.lean: slices.Sort and slices.BinarySearch on []int
+	for i := 0; i < n/16; i++ {
+		m := pick(rng, rng.IntN(13), 13+rng.IntN(40), 50+rng.IntN(200))
+		v := genSortVals(rng, m)
+		for j := range v {
+			v[j] -= 3
+		}
+		cases = append(cases, "C11.std.sort "+intListTok(v))
+		if rng.IntN(4) > 0 {
+			slices.Sort(v)
+		}
+		t := rng.IntN(m+6) - 5
+		if m > 0 && rng.IntN(2) == 0 {
+			t = v[rng.IntN(m)]
+		}
+		cases = append(cases, fmt.Sprintf("C11.std.bsearch %d %s", t, intListTok(v)))
 	}
 	for i := 0; i < n; i++ {
 		switch x := rng.IntN(100); {
